@@ -34,7 +34,7 @@ func init() {
 func castSpellings() []string {
 	s := []string{"0", "1", "-1", "+1", "007", "1.0", "1.", ".5", "1e3", "1E-3", "1e400", "-1e400", "0x10", "0x1p-2", "1_0",
 		"9223372036854775807", "9223372036854775808", "-9223372036854775808", "-9223372036854775809",
-		"18446744073709551615", "18446744073709551616", "x", "v 1", "1 2", "tr ue", "1,5", "١"}
+		"18446744073709551615", "18446744073709551616", "+9223372036854775807", "+0", "-0", "+1.5", "-1.7976931348623157e308", "1.7976931348623157e308", "5e-324", "x", "v 1", "1 2", "tr ue", "1,5", "١"}
 	// every case variant and signed spelling of nan / inf / infinity
 	variants := func(w string) []string {
 		var out []string
@@ -146,12 +146,18 @@ func c14Check(c *Ctx, doc string, cfg Cfg, seq bool) (nontrivial bool) {
 	var e1, e2 error
 	st, pan := protect(func() {
 		if seq {
-			a, e := mxj.NewMapXmlSeq([]byte(doc), false)
-			b, f := mxj.NewMapXmlSeq([]byte(doc), true)
+			in1, in2 := []byte(doc), []byte(doc)
+			a, e := mxj.NewMapXmlSeq(in1, false)
+			b, f := mxj.NewMapXmlSeq(in2, true)
+			scribble(in1)
+			scribble(in2)
 			u, k, e1, e2 = a, b, e, f
 		} else {
-			a, e := mxj.NewMapXml([]byte(doc), false)
-			b, f := mxj.NewMapXml([]byte(doc), true)
+			in1, in2 := []byte(doc), []byte(doc)
+			a, e := mxj.NewMapXml(in1, false)
+			b, f := mxj.NewMapXml(in2, true)
+			scribble(in1)
+			scribble(in2)
 			u, k, e1, e2 = a, b, e, f
 		}
 	})
